@@ -75,6 +75,17 @@ type Lemma struct {
 	Uses  []string
 }
 
+// Immutable: `immutable[C01,C10] LoggerBase.Level via Logger.GetLevel` -- no instruction of the repository
+// stores to the field, and every implementation of the interface method is the named accessor.
+type Immutable struct {
+	Props  []string
+	Struct string
+	Field  string
+	Iface  string // optional: Interface.Method all of whose implementations must be the accessor below
+	File   string
+	Line   int
+}
+
 type SpecFile struct {
 	Funcs       map[string]*FuncSpec
 	FuncOrder   []string
@@ -88,6 +99,7 @@ type SpecFile struct {
 	Invs        map[string][]*Clause // type name -> invariants
 	ChanInvs    map[string]*Clause   // "Struct.field" -> invariant of the items sent on that channel (variable v)
 	Uses        []string             // prelude files always included
+	Immutables  []*Immutable         // fields the repository's code never writes (checked over the SSA form)
 }
 
 func newSpecFile() *SpecFile {
@@ -108,7 +120,7 @@ var knownKeywords = map[string]bool{
 	"func": true, "iface": true, "ghost": true, "chaninv": true, "smtfun": true, "spec": true, "axiom": true, "lemma": true,
 	"requires": true, "ensures": true, "maintains": true, "modifies": true, "pure": true, "pure_const": true, "inline": true, "let": true, "loop": true,
 	"panics_iff": true, "ensures_on_panic": true, "replay": true, "nopanic": true, "synchronous": true, "params": true, "results": true,
-	"trusted": true, "floor": true, "callee": true, "use": true, "extern": true, "decreases": true, "recovers": true, "may_panic": true, "nooverflow": true, "rangefunc": true,
+	"trusted": true, "floor": true, "callee": true, "use": true, "extern": true, "decreases": true, "recovers": true, "may_panic": true, "nooverflow": true, "rangefunc": true, "immutable": true,
 }
 
 func parsePropsLabel(s string) (props []string, label string) {
@@ -298,6 +310,18 @@ func (sf *SpecFile) load(path string, extern bool) error {
 			if when != "" {
 				sf.Axioms = append(sf.Axioms, &Clause{Kind: "axiom", Text: rest, Expr: e, File: path, Line: l.line, Label: when, Name: "lemma " + label, Props: props})
 			}
+		case strings.HasPrefix(first, "immutable"):
+			props, _ := parsePropsLabel(strings.TrimPrefix(first, "immutable"))
+			fs := strings.Fields(rest)
+			if len(fs) < 1 || !strings.Contains(fs[0], ".") {
+				return fail(l, "bad immutable declaration")
+			}
+			i := strings.LastIndex(fs[0], ".")
+			im := &Immutable{Props: props, Struct: fs[0][:i], Field: fs[0][i+1:], File: path, Line: l.line}
+			if len(fs) >= 3 && fs[1] == "via" {
+				im.Iface = fs[2]
+			}
+			sf.Immutables = append(sf.Immutables, im)
 		case first == "smtfun" || first == "extern":
 			// informational only: signatures come from the prelude files
 		default:
